@@ -223,6 +223,25 @@ theorem flatBridge_order {β : Type} (ps : List (String × List β)) :
     (sortByName ps).Perm ps ∧ (sortByName ps).Pairwise fun a b => ¬ b.1 < a.1 :=
   ⟨sortByName_perm ps, sortByName_sorted ps⟩
 
+/-! ## `CircuitTorchWrapper._setup`: the index maps (`_torch_utils.py:101-156`) -/
+
+/-- **`ind_gate_to_ind_torch` addresses distinct rows**: two different gates read the same row of the same stacked gate tensor
+only if both are trainable, non-placeholder gates that are the same object (a shared parameter) — so the `+=` of the sweep
+sums exactly the contributions of one shared parameter. -/
+theorem setup_rows_injective (gs : List GateDesc) (i j : ℕ) (hi : i < gs.length) (hj : j < gs.length) (p : String × ℕ)
+    (h1 : slotOf gs i = some p) (h2 : slotOf gs j = some p) :
+    i = j ∨ (gs[i].placeholder = false ∧ gs[j].placeholder = false ∧ gs[i].objId = gs[j].objId) :=
+  slotOf_injective gs i j hi hj p h1 h2
+
+/-- conversely, a re-used trainable gate object (same name, same object) reads the same row every time -/
+theorem setup_rows_shared (gs : List GateDesc) (i j : ℕ) (hi : i < gs.length) (hj : j < gs.length)
+    (hn : gs[i].name = gs[j].name) (ho : gs[i].objId = gs[j].objId)
+    (hpi : gs[i].placeholder = false) (hpj : gs[j].placeholder = false)
+    (hti : gs[i].trainable = true) (htj : gs[j].trainable = true) : slotOf gs i = slotOf gs j := by
+  unfold slotOf
+  rw [List.getElem?_eq_getElem hi, List.getElem?_eq_getElem hj]
+  simp [hpi, hpj, hti, htj, hn, ho]
+
 /-! ## non-vacuity -/
 
 /-- the hypotheses of the gate theorems are satisfiable: the swap matrix on one qubit is unitary over ℤ -/
